@@ -30,7 +30,9 @@ pub fn make_module() -> KMap {
             (KValue::List(l), [value]) => {
                 let l = l.clone();
                 let value = value.clone();
-                for candidate in l.data().iter() {
+                // The comparisons may run functions that access the list, so iterate over a copy
+                let candidates = l.data().clone();
+                for candidate in candidates.iter() {
                     match ctx
                         .vm
                         .run_binary_op(BinaryOp::Equal, value.clone(), candidate.clone())
@@ -317,7 +319,9 @@ pub fn make_module() -> KMap {
                     let value = value.clone();
 
                     let mut error = None;
-                    l.data_mut().retain(|x| {
+                    // Filter a copy of the data, the comparisons may run functions that access the list
+                    let mut data = l.data().clone();
+                    data.retain(|x| {
                         if error.is_some() {
                             return true;
                         }
@@ -343,6 +347,7 @@ pub fn make_module() -> KMap {
                     if let Some(error) = error {
                         return error;
                     }
+                    *l.data_mut() = data;
                     l
                 }
                 (instance, args) => {
